@@ -498,14 +498,35 @@ class Eval:
 
     def t_comp(self, t):
         _, kind, elt, gens = t
-        if len(gens) == 1 and not gens[0][2] and elt[0] == "sub" and elt[2][0] == "tuple" and len(elt[2][1]) == 2:
+
+        def rowcol(it):
+            # the spellings of (row, column) of the pair the generator stands at
+            out = [(("sub", ("elem", it), ("const", 0)), ("sub", ("elem", it), ("const", 1)))]
+            if it[0] == "ext" and it[1] == "zip" and len(it[2]) == 2 and not it[3]:
+                out.append((("elem", it[2][0]), ("elem", it[2][1])))
+            return out
+
+        def entry_at_pair(u, it):
+            # M[row, column] of the current pair -> the matrix term
+            if u[0] == "sub" and u[2][0] == "tuple" and len(u[2][1]) == 2 and tuple(u[2][1]) in rowcol(it):
+                return u[1]
+            if u[0] == "sub" and u[2][0] == "tuple" and len(u[2][1]) == 2 and tuple(u[2][1])[::-1] in rowcol(it):
+                return ("attr", u[1], "T")          # M[column, row] is the transposed matrix at the pair
+            return None
+        if len(gens) == 1 and not gens[0][2] and kind in ("list", "gen") and entry_at_pair(elt, gens[0][1]) is not None:
             it = gens[0][1]
-            r, c = elt[2][1]
-            if r == ("sub", ("elem", it), ("const", 0)) and c == ("sub", ("elem", it), ("const", 1)):
-                ps = self.ev(it)
-                m = self.ev(elt[1])
-                if isinstance(ps, PS) and isinstance(m, M) and "*" in m.d:
-                    return LISTOF(ps, m.d["*"][0], m.d["*"][1])
+            ps = self.ev(it)
+            m = self.ev(entry_at_pair(elt, it))
+            if isinstance(ps, PS) and isinstance(m, M) and "*" in m.d:
+                return LISTOF(ps, m.d["*"][0], m.d["*"][1])
+        if len(gens) == 1 and not gens[0][2] and kind == "dict" and elt[0] == "pair" and entry_at_pair(elt[2], gens[0][1]) is not None:
+            # {(i, j): M[i, j] for (i, j) in pairs}
+            it = gens[0][1]
+            key_ok = elt[1] == ("elem", it) or (elt[1][0] == "tuple" and tuple(elt[1][1]) in rowcol(it))
+            ps = self.ev(it)
+            m = self.ev(entry_at_pair(elt[2], it))
+            if key_ok and isinstance(ps, PS) and isinstance(m, M) and "*" in m.d:
+                return MAP(ps, m.d["*"][0], m.d["*"][1])
         # {t for t in NODES if cond(t)}: a filtered node set.  The loop variable may occur only as a matrix index (A[x, t],
         # A[t, x]): the condition, with t replaced by ':', is a vector over the generic node
         if len(gens) == 1 and gens[0][2] and elt == ("elem", gens[0][1]) and kind in ("gen", "set", "list"):
